@@ -25,6 +25,8 @@ pub struct Globals {
     /// already translated functions, by Rust key (`name`, `Number::name`, `Float::name`, …)
     pub fns: HashMap<String, FnInfo>,
     pub consts: HashMap<String, GConst>,
+    /// functions (by Rust key) that could not be translated
+    pub omitted: std::collections::HashSet<String>,
 }
 
 #[derive(Clone, Debug)]
